@@ -536,6 +536,10 @@ def run(chk):
     if chk.replay_path:
         with open(chk.replay_path) as f:
             rp = json.load(f)
+        if rp["replay"].get("module") == "BitFieldReplayTrace":
+            from . import c08_replay
+            c08_replay.replay_file(chk, rp)
+            return
         prog = json.loads(rp["replay"]["trace"]["prog"])
         t = execute(prog).trace("replay")
         chk.note_case(t["prog"])
@@ -635,6 +639,9 @@ def run(chk):
     chk.sample(traces[0]["ev"][:12]); chk.sample(traces[len(traces) // 3]["ev"][:12])
     chk.sample(traces[-1]["ev"][:12])
     chk.validate("BitFieldTrace", "BitFieldTrace.cfg", traces, key_of=key_of, batch=chk.pick(2500, 5000))
+    # job R: definition histories chosen by TLC's simulator (BitFieldSim), replayed call by call on real BitFields
+    from . import c08_replay
+    c08_replay.run_replay(chk)
 
 
 def small_case_random(rng, L):
